@@ -179,6 +179,102 @@ def run_sum_invariant_oracle(ctx, ncases):
         ctx.cov["oracle_runs"] = ctx.cov.get("oracle_runs", 0) + 1
 
 
+def run_ndecho_oracle(ctx, ncases):
+    """n-D truncation with OBLIQUE shifts: the shift vector has two or three non-zero components and is applied
+    cap times out and cap times back (accumulated shift per component = 2*cap <= 2*cap+1), so the corner
+    states (cap, cap[, cap]) are populated, must be kept (every component <= cap) and return to the origin:
+    every acquisition must equal the untruncated simulation; no kept index may exceed the cap in any component"""
+    import epgpy as epg
+    for i in range(ncases):
+        dim = ctx.rng.choice([2, 3])
+        cap = ctx.rng.choice([1, 2, 3])
+        v = [ctx.rng.choice([1, -1]) for _ in range(dim)]
+        if dim == 3 and ctx.rng.random() < 0.4:
+            v[ctx.rng.randrange(3)] = 0
+        m = cap if ctx.rng.random() < 0.7 else max(1, cap - 1)
+        angles = [(float(ctx.rng.choice([30, 50, 70, 110, 140])), float(ctx.rng.choice([0, 33, 90, 200]))) for _ in range(2 * m + 1)]
+        how = ctx.rng.choice(["max_nstate", "nmax"])
+
+        def build(capped):
+            seq = [epg.T(*angles[0])]
+            for j in range(m):
+                seq += [epg.S(np.array(v), **({"nmax": cap} if capped and how == "nmax" else {})), epg.E(3.0, 900.0, 60.0, 0.01), epg.T(*angles[1 + j]), epg.ADC]
+            for j in range(m):
+                seq += [epg.S(-np.array(v), **({"nmax": cap} if capped and how == "nmax" else {})), epg.T(*angles[1 + m + j]), epg.ADC]
+            return seq
+        case = {"dim": dim, "cap": cap, "v": v, "m": m, "angles": angles, "how": how}
+        try:
+            full = np.asarray(epg.simulate(build(False), probe=["F0", "Z0"]))
+            opts = {"max_nstate": cap} if how == "max_nstate" else {}
+            trunc = np.asarray(epg.simulate(build(True), probe=["F0", "Z0"], **opts))
+            sm = epg.StateMatrix(**opts)
+            maxidx = 0
+            for o in build(True):
+                if isinstance(o, epg.operator.Operator) and not isinstance(o, epg.probe.Probe):
+                    sm = o(sm, inplace=True)
+                    if sm.coords is not None:
+                        maxidx = max(maxidx, int(np.abs(np.asarray(sm.coords)).max()))
+        except Exception as e:
+            ctx.report("n-D echo with cap raised %s: %s" % (type(e).__name__, str(e)[:200]), {"ndecho": case}, found_input=True,
+                       signature={"raises": type(e).__name__, "nd": "echo"})
+            continue
+        ctx.count(("ndecho", repr(case)))
+        ctx.cov["oracle_runs"] = ctx.cov.get("oracle_runs", 0) + 1
+        if maxidx > cap:
+            ctx.report("a kept wavenumber index %d exceeds the cap %d" % (maxidx, cap), {"ndecho": case}, found_input=True, signature={"why": "cap-exceeded", "nd": "echo"})
+        err = np.abs(full - trunc).max()
+        if err > 1e-12:
+            ctx.report("oblique n-D shifts %s x%d out and back under cap %d (%s): acquisitions differ from the untruncated simulation by %.3g although the accumulated shift per component is %d <= 2*cap+1"
+                       % (v, m, cap, how, err, 2 * m), {"ndecho": case}, found_input=True, signature={"why": "horizon", "nd": "echo"})
+
+
+def run_pruner_oracle(ctx, ncases):
+    """partials pruner (simulate(callback=PartialsPruner(threshold))): every Jacobian entry stays within
+    2 * threshold * (removals so far) of the unpruned one (operators are contractions; the norm weighs F by 1/2);
+    batches: a partial may only be removed when it is negligible for EVERY batch entry"""
+    import epgpy as epg
+    from epgpy import diff
+
+    class Counting(diff.PartialsPruner):
+        removed = 0
+        def __call__(self, sm):
+            n0 = len(getattr(sm, "order1", {}))
+            super().__call__(sm)
+            self.removed += n0 - len(getattr(sm, "order1", {}))
+    for i in range(ncases):
+        thr = ctx.rng.choice([1e-3, 1e-4, 1e-6])
+        nb = ctx.rng.choice([1, 2, 3])
+        T2 = [ctx.rng.choice([60.0, 0.02, 0.5, 200.0]) for _ in range(nb)]
+        if nb > 1 and ctx.rng.random() < 0.6:
+            T2[0], T2[1] = 60.0, 0.02        # one entry keeps its derivative, another loses it
+        T1 = [ctx.rng.choice([800.0, 0.05, 5.0]) for _ in range(nb)]
+        n = ctx.rng.randint(3, 8)
+        alpha, tau = float(ctx.rng.choice([20, 60, 90])), float(ctx.rng.choice([5.0, 20.0]))
+        case = {"thr": thr, "T2": T2, "T1": T1, "n": n, "alpha": alpha, "tau": tau}
+
+        def build():
+            seq = [epg.T(alpha, 90, order1="alpha"), epg.E(tau, np.array(T1), np.array(T2), order1="T2"), epg.ADC]
+            for j in range(n):
+                seq += [epg.T(30.0 + 10 * j, 0.0), epg.S(1), epg.E(tau, np.array(T1), np.array(T2)), epg.ADC]
+            return seq
+        try:
+            probe = epg.Jacobian(["alpha", "T2"])
+            ref = np.asarray(epg.simulate(build(), probe=probe))
+            pr = Counting(condition=thr)
+            got = np.asarray(epg.simulate(build(), probe=probe, callback=pr))
+        except Exception as e:
+            ctx.report("simulation with a partials pruner raised %s: %s" % (type(e).__name__, str(e)[:200]), {"pruner": case}, found_input=True,
+                       signature={"raises": type(e).__name__, "site": "PartialsPruner"})
+            continue
+        ctx.count(("pruner", repr(case)), nontrivial=pr.removed > 0)
+        ctx.cov["oracle_runs"] = ctx.cov.get("oracle_runs", 0) + 1
+        ctx.cov["pruner_removals"] = ctx.cov.get("pruner_removals", 0) + pr.removed
+        err = np.abs(ref - got).max() if ref.shape == got.shape else np.inf
+        if err > 2 * thr * max(pr.removed, 0) + 1e-12:
+            ctx.report("partials pruner (threshold %g, %d removals) changed a Jacobian entry by %.3g > 2*threshold*removals" % (thr, pr.removed, err),
+                       {"pruner": case}, found_input=True, signature={"why": "pruner-bound"})
+
+
 def run(ctx):
     proved = ctx.prove(gen=False)
     quick = ctx.tier == "quick"
@@ -205,6 +301,8 @@ def run(ctx):
             nb += 1
             ctx.report("truncated-shift model (Model/Ops.v apply_shift) and shift.py disagree", {"case": p, "theorem_or_correspondence": "C13 correspondence Model/Ops.v vs epgpy"}, found_input=False)
     run_trunc_oracle(ctx, 30 if quick else 1500)
+    run_ndecho_oracle(ctx, 20 if quick else 600)
+    run_pruner_oracle(ctx, 15 if quick else 500)
     run_prune_oracle(ctx, 12 if quick else 400)
     run_merge_oracle(ctx, 12 if quick else 400)
     run_sum_invariant_oracle(ctx, 25 if quick else 800)
